@@ -1363,11 +1363,11 @@ def r_instantiation_signedness(ck, P, rid):
                 ck.incomplete(R, '%s: the two instantiations have different operations on this line (%s vs %s)' % (where, ka, kb))
 
 
-def r5_8_cached_field_follows_cursor(ck, P):
+def r5_8_cached_field_follows_cursor(ck, P, rid='C05-R8'):
     """sibling agreement between the advance sites of one cursor: a loop variable that is re-read from the element the cursor has just
     moved to (x1 = r1->x1 after r1++) is re-read at every site that moves the cursor."""
     from .factors import _loops_of
-    R = ck.rule('C05-R8', 'in the band loops, a loop-carried variable that is reloaded from the element a cursor has just advanced to (the left fence x1 = r1->x1 after r1++ in subtract) is reloaded at every advance of that cursor: an advance that keeps the old value leaves the fence inside the previous rectangle', floor=4)
+    R = ck.rule(rid, 'in the band loops, a loop-carried variable that is reloaded from the element a cursor has just advanced to (the left fence x1 = r1->x1 after r1++ in subtract) is reloaded at every advance of that cursor: an advance that keeps the old value leaves the fence inside the previous rectangle', floor=4)
     for u in units(P):
         L = _loops_of(u)
         for fn, loops in sorted(L.items()):
@@ -2230,8 +2230,8 @@ def r7_19_bitmap_read_only_with_pixels(ck, P, rid='C07-R19'):
     n = 0
     for u in units(P):
         for fn, f in sorted(u.functions.items()):
-            data = [c for c in f.calls('pixman_image_get_data')]
-            wid = [c for c in f.calls('pixman_image_get_width')]
+            data = list(f.calls('pixman_image_get_data'))
+            wid = list(f.calls('pixman_image_get_width'))
             if not data or not wid:
                 continue
             W = wid[0]
@@ -2264,3 +2264,66 @@ def r7_19_bitmap_read_only_with_pixels(ck, P, rid='C07-R19'):
                     ck.violation(R, fn, 'bitmap read without width > 0 (%s)' % _w(u), '%s reads the bitmap at %s on a path where the image width has not been found positive: for an image without pixels (width 0: stride 0, no storage at all) the first word of a row does not exist' % (fn, x.loc()), x.loc())
     if n == 0:
         raise AnalysisBroken('%s: no read of bitmap data found in the region units' % rid)
+
+
+def r6_14_no_coalesce_after_bulk_append(ck, P, rid='C06-R14'):
+    """T-ORD: the band merger coalesces a band with the previous one by comparing their sizes, 'the rectangles from cur_band to the end of
+    the list'.  Once the remaining rectangles of an operand have been appended wholesale (a memmove into the top of the list), that count
+    spans many bands: a coalesce attempted afterwards never matches, and two vertically adjacent bands with identical spans stay apart -
+    the same points, not the canonical list."""
+    R = ck.rule(rid, 'in the band-merging worker of the region operators (both widths) no path leads from the bulk append of an operand\'s remaining rectangles (the memmove into the top of the result) to a call of the coalescing helper: the first left-over band is coalesced before the rest is appended, in the tail of the first and of the second operand alike', floor=4)
+    n = 0
+    for u in units(P):
+        for fn, f in sorted(u.functions.items()):
+            co = [c for c in f.calls() if isinstance(c.callee, str) and c.callee == 'pixman_coalesce']
+            mv = [c for c in f.calls() if isinstance(c.callee, str) and c.callee.startswith(('memmove', 'memcpy', 'llvm.memmove', 'llvm.memcpy'))]
+            if not co or not mv or not any(isinstance(c.callee, str) and c.callee == 'pixman_region_append_non_o' for c in f.calls()):
+                continue
+            for m in mv:
+                n += 1; ck.saw(f)
+                hit = f.reach_avoiding(m, lambda q: False, lambda q: q.op == 'call' and q.callee == 'pixman_coalesce')
+                where = '%s (%s): bulk append at %s' % (fn, u.name, m.loc())
+                if hit is None:
+                    ck.ok(R, where, 'nothing is coalesced afterwards')
+                else:
+                    ck.violation(R, fn, 'coalesce after the bulk append (%s)' % _w(u), '%s can reach the coalescing of a band (%s) after it has appended the remaining rectangles of an operand wholesale (%s): the size test of the coalescing helper compares the previous band with everything appended since, never matches, and a band that has the same spans as the one above it and touches it is left as a separate band - a region that is not in canonical form' % (fn, hit.loc(), m.loc()), m.loc())
+    if n == 0:
+        raise AnalysisBroken('%s: no bulk append next to a coalescing call found in the region units' % rid)
+
+
+def r7_20_partial_word_read_needs_partial_word(ck, P, rid='C04-R20'):
+    """T-GRD: a row of a 1-bpp image has ceil (width / 32) words.  The bitmap import reads the full words in a loop bounded by width >> 5;
+    the one further read, of the trailing partial word, exists only when width is not a multiple of 32."""
+    R = ck.rule(rid, 'in the bitmap import of both region widths, at least one read of the bitmap is guarded by the test (width & 31) != 0, and every read of the bitmap that is not inside the full-word loop and not the row\'s first word is: with the guard gone the word behind every row of an image whose width is a multiple of 32 is read - 4 bytes past the end of the bitmap for the last row', floor=2)
+    n = 0
+    for u in units(P):
+        for fn, f in sorted(u.functions.items()):
+            if not list(f.calls('pixman_image_get_data')) or not list(f.calls('pixman_image_get_width')):
+                continue
+            W = list(f.calls('pixman_image_get_width'))[0]
+            loads = [x for x in f.insts() if x.op == 'load' and any(r[0] == 'call' and r[1] == 'pixman_image_get_data' for r in common.roots(f, x.a[0]))]
+            if not loads:
+                continue
+            n += 1; ck.saw(f)
+            def partial_guard(x):
+                for t, s in f.guard_edges(x.bb.id):
+                    if t.op != 'br' or not t.a:
+                        continue
+                    c, p, ops = f.cond(t.a[0])
+                    if c is None:
+                        continue
+                    for o in (ops or []):
+                        y = f.v(f.strip_casts(o)) if o[0] == 'v' else None
+                        if y is not None and y.op == 'and' and any(a[0] == 'c' and int(a[1]) == 31 for a in y.a) and any(list(f.strip_casts(a)) == ['v', W.i] for a in y.a):
+                            taken_true = t.d['succ'][0] == s
+                            if (p in ('ne', 'is') and taken_true) or (p in ('eq', 'not') and not taken_true):
+                                return True
+                return False
+            guarded = [x for x in loads if partial_guard(x)]
+            where = '%s (%s): trailing partial word' % (fn, u.name)
+            if guarded:
+                ck.ok(R, where, 'read under (width & 31) != 0')
+            else:
+                ck.violation(R, fn, 'partial-word read without its guard (%s)' % _w(u), '%s reads the bitmap at %d places, none of them under the test (width & 31) != 0: the read that follows the full-word loop of each row is made also when the row has no partial word, i.e. one word past the row - past the bitmap for the last row' % (fn, len(loads)), loads[-1].loc())
+    if n == 0:
+        raise AnalysisBroken('%s: no bitmap import found in the region units' % rid)
